@@ -2,9 +2,9 @@ package main
 
 import (
 	"fmt"
-	"os"
 	"go/token"
 	"go/types"
+	"os"
 	"strings"
 
 	"golang.org/x/tools/go/ssa"
@@ -386,11 +386,11 @@ func checkWriterGates(p *Program, r *Report) {
 	for _, en := range []string{"(*Writer).AddRef", "(*Writer).AddLog"} {
 		f := p.MustFunc(en)
 		cfg := &simCfg{
-			Event:  map[string]bool{"(*Writer).add": true},
-			Keep:   map[string]bool{"(*Writer).add": true},
-			Opaque: map[string]bool{"(*Writer).indexHash": true, "(*Writer).finishPublicSection": true},
-			Pure:   map[string]bool{"strings.TrimSpace": true, "strings.Contains": true, "(*blockWriter).getType": true},
-			Inline: map[string]bool{"(*LogRecord).IsDeletion": true, "(*RefRecord).IsDeletion": true},
+			Event:           map[string]bool{"(*Writer).add": true},
+			Keep:            map[string]bool{"(*Writer).add": true},
+			Opaque:          map[string]bool{"(*Writer).indexHash": true, "(*Writer).finishPublicSection": true},
+			Pure:            map[string]bool{"strings.TrimSpace": true, "strings.Contains": true, "(*blockWriter).getType": true},
+			Inline:          map[string]bool{"(*LogRecord).IsDeletion": true, "(*RefRecord).IsDeletion": true},
 			NoInlineDefault: true,
 		}
 		c, x := runSim(p, f, cfg, nil)
@@ -569,6 +569,7 @@ func init() {
 		checkRestartCap(p, r)
 		copyRules(p, r, checkWireSeq, "WIRE-AGREE", "KEY-BITS", "LOGKEY-CODEC")
 		checkPadAccount(p, r)
+		checkKeyBytewise(p, r)
 		r.Engines = []string{"pathsim", "dtable", "wireseq", "bounds"}
 		r.Explanation = "Structural necessary conditions of the round trip, decided on every path by abstract simulation: a record whose payload fields are all empty (a deletion) reaches the block writer with its payload untouched (the log message normalisation must not turn a tombstone into a live entry); IsDeletion is true exactly when every payload field is empty (all valuations of the field-emptiness atoms); AddRef writes only update indices inside the declared limits; Writer.add lets a record reach the block writer only if its key is greater than the previous key; a restart point is recorded only while the 16-bit restart count has room and only for keys stored without prefix; for ref, log and index records and every value type the ordered wire events (varint / bytes / string / u16, each tied to the record field it is read from or stored to) written by encode on the paths of the writer's documented domain equal those read by decode; the key codec's shift and mask constants agree between the encoder and both decoders; the log key codec pair uses the same 9-byte reversed big-endian suffix. The update-index delta is decided under C11, conformance of the sequences with the format under C14."
 		r.NotDecided = []string{"that the bytes of a given record set read back equal (block boundaries, padding, offsets, zlib stream length, varint arithmetic)", "reflog blocks larger than the block size"}
